@@ -42,6 +42,7 @@ def eq_stage(R, tier, rng):
 def run(R, tier, rng):
     eq_stage(R, tier, rng)
     fam_hash2.extra_stage(R, tier, rng, False)
+    fam_hash2.big_stage(R, tier, rng, False)
     fam_hash2.run_family2(R, tier, rng, False)
     fam_hash.run_family(R, tier, rng, counter=False)
 
